@@ -51,7 +51,16 @@ pub struct Shared {
     pub ulog: Option<Arc<Mutex<Vec<String>>>>,
     /// the number of the connection this stream is (several connections of one client object): its events read `rd@k:n`
     pub tag: Option<usize>,
+    /// the stream advertises and implements vectored writes (`iomode` bit 0)
+    pub vectored: bool,
+    /// the reader fills the caller's buffer the way TLS streams do: it initialises the whole unfilled part, then advances
+    /// by what it has (`iomode` bit 1)
+    pub init_style: bool,
 }
+
+// `iomode <n>`: bit 0 = streams created from now on advertise vectored writes, bit 1 = their reader uses
+// `initialize_unfilled` + `advance`
+thread_local! { pub static IOMODE: std::cell::Cell<u32> = std::cell::Cell::new(0); }
 
 // the connection whose reader task is being polled right now (set by `Tagged`): the reader's trace-point events are
 // attributed to it
@@ -102,7 +111,8 @@ pub struct Scripted(pub Arc<Mutex<Shared>>);
 
 impl Scripted {
     pub fn new(rd: Vec<REv>, wr: Vec<WEv>) -> Scripted {
-        Scripted(Arc::new(Mutex::new(Shared { rd: rd.into(), wr: wr.into(), ..Default::default() })))
+        let m = IOMODE.with(|m| m.get());
+        Scripted(Arc::new(Mutex::new(Shared { rd: rd.into(), wr: wr.into(), vectored: m & 1 != 0, init_style: m & 2 != 0, ..Default::default() })))
     }
 }
 
@@ -212,7 +222,13 @@ impl AsyncRead for Scripted {
                         return Poll::Ready(Ok(()));
                     }
                     let k = d.len().min(buf.remaining());
-                    buf.put_slice(&d[..k]);
+                    if s.init_style {
+                        let dst = buf.initialize_unfilled();
+                        dst[..k].copy_from_slice(&d[..k]);
+                        buf.advance(k);
+                    } else {
+                        buf.put_slice(&d[..k]);
+                    }
                     s.consumed += k;
                     if let Some(w) = s.write_waker.take() {
                         w.wake();
@@ -285,6 +301,19 @@ impl AsyncWrite for Scripted {
                 Poll::Ready(Ok(k))
             }
         }
+    }
+    fn poll_write_vectored(self: Pin<&mut Self>, cx: &mut Context<'_>, bufs: &[std::io::IoSlice<'_>]) -> Poll<std::io::Result<usize>> {
+        // one scripted event serves the whole gathered call: the octets of all the slices, in order, as if they were one
+        let vectored = self.0.lock().unwrap().vectored;
+        if !vectored {
+            let first = bufs.iter().find(|b| !b.is_empty()).map(|b| &**b).unwrap_or(&[]);
+            return self.poll_write(cx, first);
+        }
+        let all: Vec<u8> = bufs.iter().flat_map(|b| b.iter().copied()).collect();
+        self.poll_write(cx, &all)
+    }
+    fn is_write_vectored(&self) -> bool {
+        self.0.lock().unwrap().vectored
     }
     fn poll_flush(self: Pin<&mut Self>, _: &mut Context<'_>) -> Poll<std::io::Result<()>> {
         Poll::Ready(Ok(()))
